@@ -165,6 +165,8 @@ def stepElem {α : Type} [DecidableEq α] [Elem α] (model : Bool) (ty : String)
   let tok := resultTok obs
   let mutOk := chk (field obs "mut" == some "0") "an argument was modified by a function that is not documented to work in place"
   let nn1 : Bool := field obs "nn" == some "1"
+  -- white-box: every non-in-place function builds its result with `make` (model mode only)
+  let freshOk := chk (!model || field obs "alias" == some "0") "result shares its backing array with an argument"
   let nnOk (fn : Fn) := chk (!promisedNonNil fn || nn1) "nil result where a non-nil one is promised"
   let gotList : Option (List α) := (okPayload obs).bind fun p => (parseSlice p).bind id
   let gotInts : Option (List Int) := (okPayload obs).bind parseInts
@@ -174,13 +176,13 @@ def stepElem {α : Type} [DecidableEq α] [Elem α] (model : Bool) (ty : String)
   let setOp (keys : List α) (spec : List α → Bool) (fn : Fn) : Option String :=
     match gotList with
     | none => some "bad-observation"
-    | some r => firstBad [mutOk, nnOk fn,
+    | some r => firstBad [mutOk, nnOk fn, freshOk,
         if model then chk (r.isPerm keys) s!"result want an enumeration of {renderList keys}"
         else chk (spec r) "result is not exactly the required set without duplicates"]
   -- a result of a quadratic variant: literally the model's list / representatives of the right classes
   let funcOp (e : List String) (f : (α → α → Bool) → List α) (want : (α → α → Bool) → List α) (fn : Fn) : Option String :=
     match gotList, (Elem.eqv e : Option ((α → α → Bool) × Bool)) with
-    | some r, some (eq, isEquiv) => firstBad [mutOk, nnOk fn,
+    | some r, some (eq, isEquiv) => firstBad [mutOk, nnOk fn, freshOk,
         if model then chk (r == f eq) s!"result want {renderList (f eq)}"
         else chk (!isEquiv || Spec.isRepsOf r (S ++ D) (want eq) eq) "result is not one representative per required class"]
     | _, _ => some "bad-op-or-observation"
@@ -194,7 +196,7 @@ def stepElem {α : Type} [DecidableEq α] [Elem α] (model : Bool) (ty : String)
     firstBad [mutOk, chk (tok == want) s!"result want {want}"]
   let listOp (m : Outcome (List α)) (s : List α) (fn : Fn) : Option String :=
     match (if model then m else .ok s) with
-    | .ok w => firstBad [mutOk, nnOk fn, chk (gotList == some w) s!"result want {renderList w}"]
+    | .ok w => firstBad [mutOk, nnOk fn, freshOk, chk (gotList == some w) s!"result want {renderList w}"]
     | .err e => some s!"model error {e.render}"
     | .panic p => chk (tok == renderPanic p) s!"result want {renderPanic p}"
   let mapOp (m : AMap α α) (kvs : List (α × α)) : Option String :=
@@ -270,7 +272,7 @@ def stepElem {α : Type} [DecidableEq α] [Elem α] (model : Bool) (ty : String)
     | some p =>
       if model then
         match findAll S p with
-        | some w => firstBad [mutOk, chk nn1 "nil result where a non-nil one is promised", chk (gotList == some w) s!"result want {renderList w}"]
+        | some w => firstBad [mutOk, freshOk, chk nn1 "nil result where a non-nil one is promised", chk (gotList == some w) s!"result want {renderList w}"]
         | none => chk (!nn1) "result want nil"
       else listOp (.ok []) (S.filter p) .findAll
     | none => some "bad-op"
@@ -291,7 +293,8 @@ def stepElem {α : Type} [DecidableEq α] [Elem α] (model : Bool) (ty : String)
     -- documented in-place: the argument afterwards is the reversal
     match (if model then reverseSelf S else .ok S.reverse) with
     | .ok w => firstBad [chk (tok == "ok") "result want ok", chk (argAfter == some w) s!"argument afterwards want {renderList w}",
-                         chk (field obs "mutdst" == some "0") "the other argument was modified"]
+                         chk (field obs "mutdst" == some "0") "the other argument was modified",
+                         chk (!model || field obs "tail" == some "0") "slots beyond len(src) were written"]
     | .err e => some s!"model error {e.render}"
     | .panic p => chk (tok == renderPanic p) s!"result want {renderPanic p}"
   | ["filterdelete", p] =>
@@ -300,7 +303,8 @@ def stepElem {α : Type} [DecidableEq α] [Elem α] (model : Bool) (ty : String)
       if model then
         match filterDelete S p with
         | .ok (res, arg) => firstBad [chk (gotList == some res) s!"result want {renderList res}",
-            chk (argAfter == some arg) s!"argument afterwards want {renderList arg}"]
+            chk (argAfter == some arg) s!"argument afterwards want {renderList arg}",
+            chk (field obs "tail" == some "0") "slots beyond len(src) were written"]
         | .err e => some s!"model error {e.render}"
         | .panic m => chk (tok == renderPanic m) s!"result want {renderPanic m}"
       else chk (gotList == some (Spec.filterDelete S p)) s!"result want {renderList (Spec.filterDelete S p)}"
@@ -323,12 +327,14 @@ def stepElem {α : Type} [DecidableEq α] [Elem α] (model : Bool) (ty : String)
               chk (r.vals.length ≤ grow) "capacity below length",
               chk (argAfter == some (arg.map dec)) s!"argument afterwards want {renderList (arg.map dec)}",
               chk (field obs "alias" == some (if shares then "1" else "0")) s!"aliasing want {shares}"]
-          | .err e => firstBad [chk (tok == e.render) s!"result want {e.render}", chk (argAfter == some S) "argument modified by a failing call"]
+          | .err e => firstBad [chk (tok == e.render) s!"result want {e.render}", chk (argAfter == some S) "argument modified by a failing call",
+              chk (field obs "mut" == some "0") "a failing call wrote into the argument's backing array (capacity window)"]
           | .panic m => chk (tok == renderPanic m) s!"result want {renderPanic m}"
       else
         match Spec.add S x i with
         | .ok w => chk (gotList == some w) s!"result want {renderList w}"
-        | .err e => firstBad [chk (tok == e.render) s!"result want {e.render}", chk (argAfter == some S) "argument modified by a failing call"]
+        | .err e => firstBad [chk (tok == e.render) s!"result want {e.render}", chk (argAfter == some S) "argument modified by a failing call",
+              chk (field obs "mut" == some "0") "a failing call wrote into the argument's backing array (capacity window)"]
         | .panic _ => some "spec"
     | _, _, _ => some "bad-op"
   | ["delete", i] =>
@@ -341,13 +347,16 @@ def stepElem {α : Type} [DecidableEq α] [Elem α] (model : Bool) (ty : String)
         match deleteAt ⟨S.map enc, S.length⟩ i with
         | .ok (r, arg) =>
           firstBad [chk (gotList == some (r.vals.map dec)) s!"result want {renderList (r.vals.map dec)}",
-            chk (argAfter == some (arg.map dec)) s!"argument afterwards want {renderList (arg.map dec)}"]
-        | .err e => firstBad [chk (tok == e.render) s!"result want {e.render}", chk (argAfter == some S) "argument modified by a failing call"]
+            chk (argAfter == some (arg.map dec)) s!"argument afterwards want {renderList (arg.map dec)}",
+            chk (field obs "tail" == some "0") "slots beyond len(src) were written"]
+        | .err e => firstBad [chk (tok == e.render) s!"result want {e.render}", chk (argAfter == some S) "argument modified by a failing call",
+              chk (field obs "mut" == some "0") "a failing call wrote into the argument's backing array (capacity window)"]
         | .panic m => chk (tok == renderPanic m) s!"result want {renderPanic m}"
       else
         match Spec.delete S i with
         | .ok w => chk (gotList == some w) s!"result want {renderList w}"
-        | .err e => firstBad [chk (tok == e.render) s!"result want {e.render}", chk (argAfter == some S) "argument modified by a failing call"]
+        | .err e => firstBad [chk (tok == e.render) s!"result want {e.render}", chk (argAfter == some S) "argument modified by a failing call",
+              chk (field obs "mut" == some "0") "a failing call wrote into the argument's backing array (capacity window)"]
         | .panic _ => some "spec"
     | none => some "bad-op"
   | ["tomap", k] =>
@@ -408,7 +417,7 @@ def stepElem {α : Type} [DecidableEq α] [Elem α] (model : Bool) (ty : String)
     | ["mx.roundtrip"] =>
       -- ToMap(KeysValues(m)) is m again
       match gotPairs with
-      | some r => chk (r.isPerm m) s!"result want the map {renderPairs m}"
+      | some r => firstBad [mutOk, chk (r.isPerm m) s!"result want the map {renderPairs m}"]
       | none => some "bad-observation"
     | _ => some "bad-op"
   -- pair: keys = src, values = dst
@@ -451,6 +460,7 @@ def stepElem {α : Type} [DecidableEq α] [Elem α] (model : Bool) (ty : String)
 /-- PackPairs[K,V] on a list of dynamically typed tokens `i:5`, `s:a`, `n` (independent of the case) -/
 def stepPack (model : Bool) (kt vt flat : String) (obs : String) : Option String :=
   let tok := resultTok obs
+  let packMutOk := chk (field obs "mut" == some "0") "PackPairs wrote into its argument (not documented to work in place)"
   let fl : Option (List String) := if flat = "nil" then none else if flat = "-" then some [] else some (flat.splitOn ",")
   let cast (t : String) (a : String) : Option String := if a.startsWith (t ++ ":") then some (a.drop 2).toString else none
   let render (l : Option (List (String × String))) : String :=
@@ -462,14 +472,14 @@ def stepPack (model : Bool) (kt vt flat : String) (obs : String) : Option String
     | some l => (List.range (l.length / 2)).all fun i => (cast kt (l.getD (2 * i) "")).isSome && (cast vt (l.getD (2 * i + 1) "")).isSome
   if model then
     match packPairs (cast kt) (cast vt) fl with
-    | .ok w => chk (tok == "ok:" ++ render w) s!"result want {render w}"
+    | .ok w => firstBad [chk (tok == "ok:" ++ render w) s!"result want {render w}", packMutOk]
     | .err e => some s!"model error {e.render}"
     | .panic m => chk (tok == renderPanic m) s!"result want {renderPanic m}"
   else if !wellTyped then none   -- documented: panics; nothing is demanded
   else
     let want : Option (List (String × String)) := fl.map fun l =>
       (List.range (l.length / 2)).map fun i => (((l.getD (2 * i) "").drop 2).toString, ((l.getD (2 * i + 1) "").drop 2).toString)
-    chk (tok == "ok:" ++ render want || (render want == "-" && tok == "ok:nil")) s!"result want {render want}"
+    firstBad [chk (tok == "ok:" ++ render want || (render want == "-" && tok == "ok:nil")) s!"result want {render want}", packMutOk]
 
 def stepInts (model : Bool) (S : List Int) (ws : List String) (obs : String) : Option String :=
   let tok := resultTok obs
